@@ -380,6 +380,14 @@ func c02Enumerate(tier string, emit func(core.Case)) {
 			emit(&c02Case{Part: "text", Src: "<div><textarea>" + body + "</textarea></div>"})
 		}
 	})
+	// (iii-c) raw text in unusual places: style / script in foreign content are ordinary elements,
+	// script / style inside <pre> are still raw text
+	for _, src := range []string{
+		`<svg><style>.a &gt; .b{} &amp; c</style></svg>`, `<svg><script>if (a &lt; b) x</script></svg>`, `<math><style>a &lt; b</style></math>`, `<svg><style>p{}</style><g><style>q &gt; r</style><circle r="1"></circle></g></svg>`,
+		`<pre><script>if (a<b) x</script></pre>`, `<pre><style>p > q {}</style></pre>`, `<div><pre>a <script>var s = "<b>";</script> b</pre></div>`,
+	} {
+		emit(&c02Case{Part: "text", Src: src})
+	}
 	// (iv) documents
 	bodies := []string{"<p>t</p>", "<div class=\"a\"><span>x</span></div>", "t", "<p>&amp;</p><hr>", "<table><tr><td>x</td></tr></table>", "<script>var a = 1 < 2;</script><p>x</p>"}
 	heads := []string{"", "<title>T</title>", "<title>a &amp; b</title><style>p{color:red}</style>", `<meta charset="utf-8"><link rel="x" href="y">`}
